@@ -227,15 +227,28 @@ impl Envelope {
     ) -> Result<bool> {
             let threshold = threshold.unwrap_or(public_keys.len());
             let mut count = 0;
+            // A key for which verification fails with an error (no valid
+            // signature, but some malformed `'signed'` object) simply does not
+            // count; it must not stop the keys after it from being counted.
+            let mut first_error = None;
             for key in public_keys {
-                if self.clone().has_some_signature_from_key(*key)? {
-                    count += 1;
-                    if count >= threshold {
-                        return Ok(true);
+                match self.clone().has_some_signature_from_key(*key) {
+                    Ok(true) => {
+                        count += 1;
+                        if count >= threshold {
+                            return Ok(true);
+                        }
+                    }
+                    Ok(false) => {}
+                    Err(err) => {
+                        first_error.get_or_insert(err);
                     }
                 }
             }
-            Ok(false)
+            match first_error {
+                Some(err) => Err(err),
+                None => Ok(false),
+            }
     }
 
     /// Checks whether the envelope's subject has some threshold of signatures.
